@@ -456,9 +456,26 @@ def run(ctx):
         n_ag = 0
         gen_err.append(('approx_gaussian', repr(e)))
     # 1. theorems
-    pr = vlib.coq_props('C10', extra_targets=['proofs/PolyEvalTac.vo', 'gen/AngularSub.vo'])
-    ctx.cov.update(obligations=len(pr['theorems']) + n_ag, discharged=(pr['discharged'] + n_ag) if pr['ok'] else 0,
-                   theorems=pr['theorems'], axioms=pr['axioms'],
+    # the per-instance theorems (Interval) live outside props/C10.v (coqchk closure); recompiled on every run
+    inst = 'proofs/C10Instances.v'
+    try:
+        os.remove(os.path.join(vlib.COQ, inst + 'o'))
+    except OSError:
+        pass
+    if not ctx.quick:        # thorough: re-prove the tabulated ApproxGaussian segment goals too (45 s)
+        try:
+            os.remove(os.path.join(vlib.COQ, 'gen', 'ApproxGaussianInst.vo'))
+        except OSError:
+            pass
+    pr = vlib.coq_props('C10', extra_targets=['proofs/PolyEvalTac.vo', 'gen/AngularSub.vo', inst + 'o'])
+    # instance goals are counted only when they were really compiled in this run
+    inst_thms = vlib.theorems_in(inst) if ('COQC ' + inst) in pr['log'] else []
+    n_ag_run = n_ag if 'COQC gen/ApproxGaussianInst.v' in pr['log'] else 0
+    ctx.cov['instance_goals_from_an_earlier_build_not_counted'] = n_ag - n_ag_run
+    n_ag_total, n_ag = n_ag, n_ag_run
+    ctx.cov.update(obligations=len(pr['theorems']) + len(inst_thms) + n_ag,
+                   discharged=(pr['discharged'] + len(inst_thms) + n_ag) if pr['ok'] else 0,
+                   theorems=pr['theorems'], instance_theorems=inst_thms, axioms=pr['axioms'],
                    checker_cmd='make -C /verif/coq props/C10.vo (coqc 8.16.1, full .vo build) + Print Assumptions; '
                                'per-instance goals: coqc cases/C10_*.v (Interval 4.6, vm_compute)',
                    trusted_base=vlib.TRUSTED_COMMON + [
@@ -480,7 +497,7 @@ def run(ctx):
                    correspondence=dict(polynomial_objects=cp['n_obj'], func_ok=cp['func_ok'], abel_goals=cp['abel_goals'],
                                        abel_ok=cp['abel_ok'], angular_cases=ca['n'], angular_ok=ca['ok'],
                                        approx_gaussian_random_tols=cg['tols'], approx_gaussian_goals=cg['goals'],
-                                       approx_gaussian_table_goals=n_ag, angular_sub_variant=variant),
+                                       approx_gaussian_table_goals=n_ag_total, approx_gaussian_table_goals_compiled_this_run=n_ag, angular_sub_variant=variant),
                    per_instance_goals=cp['abel_goals'] + cg['goals'] + n_ag)
     # 3. search
     budget = (30 if ctx.quick else 300) * (4 if (broken or corr_bad) else 1)
